@@ -71,6 +71,8 @@ def main():
         base = os.path.basename(p)[:-6]
         key = next((k for k in EXPECT if base.startswith(k)), None)
         tasks.append((base, p, EXPECT.get(key, ALL)))
+    for p in sorted(glob.glob(os.path.join(HERE, "benign", "*.patch"))):
+        tasks.append(("BENIGN " + os.path.basename(p)[:-6], p, ALL))
     for d in sorted(glob.glob(os.path.join(VERIF, "seeded", "*", "patch.diff"))):
         sid = os.path.basename(os.path.dirname(d))
         prop = sid[:3]
@@ -89,6 +91,11 @@ def main():
         if r["error"]:
             lines.append(f"| {r['mutant']} | - | ERROR {r['error']} | | |")
             ok_all = False
+            continue
+        if r["mutant"].startswith("BENIGN"):
+            bad = [p for p, v in r["props"].items() if v["caught"]]
+            lines.append(f"| {r['mutant']} (behaviour-preserving) | all 20 | {'SILENT (as required)' if not bad else 'FALSE ALARM on ' + ','.join(bad)} | {'' if not bad else r['props'][bad[0]]['keys'][0].replace('|','¦')[:150]} | |")
+            ok_all = ok_all and not bad
             continue
         if r["mutant"].startswith("BASELINE"):
             bad = [p for p, v in r["props"].items() if v["caught"]]
